@@ -155,7 +155,28 @@ type tqCase struct {
 	Qs []float64 `json:"qs"`
 }
 
+// hostileTQ calls ThresholdQ with values outside [0,1] / NaN / Inf / an empty list and swallows whatever
+// happens: what such a call returns is outside the property, but it must not disturb later calls.
+func hostileTQ(rg *gen.Rng) {
+	bad := []float64{math.NaN(), -1, 2, math.Inf(1), math.Inf(-1), -1e-300, 1 + 1e-12}
+	n := rg.Range(0, 60)
+	qs := make([]float64, n)
+	for i := range qs {
+		qs[i] = float64(rg.Intn(10)) / 100
+	}
+	if n > 0 {
+		qs[rg.Intn(n)] = bad[rg.Intn(len(bad))]
+		if rg.Intn(2) == 0 {
+			qs[n-1] = bad[rg.Intn(len(bad))]
+		}
+	}
+	guard(func() { _ = detect.ThresholdQ(qs) })
+}
+
 func evalTQ(cs tqCase, rg *gen.Rng) (bool, string) {
+	if rg.Intn(4) == 0 {
+		hostileTQ(rg)
+	}
 	var got float64
 	if p, m := guard(func() { got = detect.ThresholdQ(cs.Qs) }); p {
 		return true, m
@@ -179,7 +200,7 @@ func evalTQ(cs tqCase, rg *gen.Rng) (bool, string) {
 }
 
 func runC12(c *ev.Ctx) {
-	c.Rule = "Threshold: every s in 1..10^6 against the exact integer inequality (99s-100t)^2<=891s (exhaustive over the quantifier's range); ThresholdQ: seeded lists (random, one-bin, edge-valued k/10 and nextafter neighbours, 0, 1.0) against reference binning + exact Q(9/2,V/2), each also under 5 permutations (bit-identical); non-trivial = every s (each has its own threshold) / lists with at least two occupied bins or an edge value; distinct = distinct s / distinct list hash"
+	c.Rule = "Threshold: every s in 1..10^6 against the exact integer inequality (99s-100t)^2<=891s (exhaustive over the quantifier's range); ThresholdQ: seeded lists (random, one-bin, edge-valued k/10 and nextafter neighbours, 0, 1.0) against reference binning + exact Q(9/2,V/2), each also under 5 permutations (bit-identical); a quarter of the evaluations are preceded, in the same process, by a hostile call (NaN, +-Inf, values outside [0,1], empty list) whose own outcome is ignored; non-trivial = every s (each has its own threshold) / lists with at least two occupied bins or an edge value; distinct = distinct s / distinct list hash"
 	c.Assumptions = []string{"integer arithmetic; math/big; math.Erfc"}
 	c.Exhaustive = true
 	bad := 0
